@@ -2,6 +2,7 @@
 from harness.props import _heap as H
 
 PID = "C02"
+TRANSLATE = ["EqRect.v"]     # translator tie: the rectangularity guards regenerated from vector.py / table.py and re-proved
 PRELUDE = H.PRELUDE
 FAILING = H.FAILING
 SHARD = 60
